@@ -227,8 +227,25 @@ def rule_r5(prog, res) -> None:
     s2c, c2s = box.methods["_sky2cylinder"], box.methods["_cylinder2sky"]
     res.touch(s2c)
     res.touch(c2s)
-    t1, t2 = unparse(s2c.node), unparse(c2s.node)
-    if "y = np.sin(dec)" in t1 and "x = ra" in t1 and "dec = np.arcsin(y)" in t2 and "ra = x" in t2:
+    from ..norm import NotAffine, Rational, _atom, sym_exec, uf_atom
+    from ..norm import _poly_env as PE
+
+    def ret_forms(m):
+        try:
+            paths = [p for p in sym_exec(m.node.body) if p[2] is not None]
+        except NotAffine:
+            return None
+        if len(paths) != 1 or not isinstance(paths[0][2], ast.Tuple) or len(paths[0][2].elts) != 2:
+            return None
+        return [PE(e, paths[0][1], lambda t: t) for e in paths[0][2].elts]
+
+    f1, f2 = ret_forms(s2c), ret_forms(c2s)
+    if f1 is None or f2 is None:
+        raise AnalysisError("C16.R5: sky<->cylinder maps are not straight-line functions returning a pair")
+    p1, p2 = s2c.param_names()[1:3], c2s.param_names()[1:3]
+    A = lambda n: Rational(_atom(n))  # noqa: E731
+    ok_map = f1[0].equals(A(p1[0])) and f1[1].equals(Rational(uf_atom("sin", A(p1[1])))) and f2[0].equals(A(p2[0])) and f2[1].equals(Rational(uf_atom("arcsin", A(p2[1]))))
+    if ok_map:
         res.ok("C16.R5", res.site(s2c, "sin / arcsin"), "cylindrical equal-area map y = sin(dec) and its inverse dec = arcsin(y)")
     else:
         res.violation("C16.R5", s2c, s2c.node, "the sky<->cylinder maps are not the equal-area pair y = sin(dec) / dec = arcsin(y)", key_extra="cylinder-map")
